@@ -105,4 +105,37 @@ example :
       Plug.lookup 3 r.opts = none := by
   refine ⟨_, rfl, ?_, ?_, ?_, ?_⟩ <;> rfl
 
+/-- C17 end to end (DHCPv4). A plugin of the chain that is reached (only plugins that never end the
+chain before it) and whose option codes no later element owns: the response `mid` it is handed is
+what the plugins before it produced, its own handler turns `mid` into `out` — about which
+`C17_builtin4` says everything C17 says —, and the reply that is finally sent has, for every
+option code the plugin owns, exactly the value in `out`. -/
+theorem SYS_C17_delivered4 (bound : Nat) (oob : Option Nat) (pre post : List Elem4) (c : Plug.Cfg4) (req : Sys.Req4)
+    (name : String) (args : List Plug.ArgOracle) (hcfg : Plug.plugSetup4 name args = some (.ok c))
+    (hpre : pre.all neverStops4 = true)
+    (hpost : ∀ e ∈ post, ∀ code ∈ owned4 (.plug c), code ∉ owned4 e)
+    (resp : Sys.Resp4) (peer : BitVec 32) (port : Nat) (ifidx : Option Nat) (l2 : Bool)
+    (hs : serve4 bound oob (pre ++ .plug c :: post) (some req) = .send resp peer port ifidx l2) :
+    ∃ r0 mid out stop, Sys.stub4 req = some r0 ∧
+      (runChain (pre.map handle4) req 0 (some r0)).1 = some mid ∧
+      Plug.plugHandle4 c (viewReq4 req) (viewResp4 mid) = (some out, stop) ∧
+      C17.holds4 c (viewReq4 req) (viewResp4 mid) (some out, stop) = true ∧
+      ∀ code ∈ owned4 (.plug c), Plug.lookup code resp.opts = Plug.lookup code out.opts :=
+  sys_C17_delivered4 bound oob pre post c req name args hcfg hpre hpost resp peer port ifidx l2 hs
+
+/-- non-vacuity of `SYS_C17_delivered4`: `dns` after `router`, before `mtu` -/
+example :
+    let req : Sys.Req4 := ⟨1, 7, 1, [2,0,0,0,0,1], 0, [0,0,0,0], [0,0,0,0], [0,0,0,0], [(53, [1]), (55, [3, 6, 26])]⟩
+    let pre : List Elem4 := [.plug (.router [[10,0,0,254]])]
+    let post : List Elem4 := [.plug (.mtu 1500)]
+    pre.all neverStops4 = true ∧ (∀ e ∈ post, ∀ code ∈ owned4 (.plug (.dns [[8,8,8,8]])), code ∉ owned4 e) ∧
+    ∃ r, serve4 3 none (pre ++ .plug (.dns [[8,8,8,8]]) :: post) (some req) = .send r 0#32 68 (some 3) true ∧
+      Plug.lookup 6 r.opts = some [8,8,8,8] := by
+  refine ⟨rfl, ?_, _, rfl, rfl⟩
+  intro e he code hc
+  simp only [List.mem_singleton] at he
+  subst he
+  simp [owned4] at hc ⊢
+  omega
+
 end CoreDhcp
